@@ -66,6 +66,10 @@ type Msg struct {
 
 type Case struct {
 	AES    bool  `json:"aes"`
+	// KeyOff (with AES): the key is installed on both ends and crypto mode then switched off again (the
+	// keyed-but-cleartext state the secret hand-over uses): frames travel in the clear and must round-trip
+	// like on a plain stream.
+	KeyOff bool `json:"key_off,omitempty"`
 	Prefix int   `json:"prefix"` // cleartext messages exchanged before the key (AES only); bit0: A->B, bit1: B->A
 	Send   int   `json:"send"`
 	Recv   int   `json:"recv"`
@@ -111,6 +115,10 @@ func runCase(c Case) result {
 		}
 		if err := p.SetKey(kit.Pattern(32, c.Salt+77)); err != nil {
 			return result{violation: "SetSymmetricKey: " + err.Error()}
+		}
+		if c.KeyOff {
+			p.A.SetCryptoMode(false)
+			p.B.SetCryptoMode(false)
 		}
 	}
 	S, R := p.A, p.B
@@ -195,7 +203,7 @@ func runCase(c Case) result {
 				err = msg.PutStringBytes(kit.Bg, str)
 			}
 			want = nil
-			if c.AES {
+			if c.AES && !c.KeyOff {
 				var l [8]byte
 				binary.BigEndian.PutUint64(l[:], uint64(len(str)+1))
 				want = append(want, l[:]...)
@@ -345,6 +353,9 @@ func nearEdge(n int) bool {
 
 func record(c Case, r result) {
 	class := fmt.Sprintf("%s/%s/aes=%v", sendNames[c.Send], recvNames[c.Recv], c.AES)
+	if c.KeyOff {
+		class += "/keyed-cleartext"
+	}
 	nt := r.wireFrames > len(c.Msgs)
 	maxLen := 0
 	for _, m := range c.Msgs {
@@ -447,6 +458,7 @@ func genCase(t *rapid.T) Case {
 		Recv:   rapid.IntRange(0, nRecv-1).Draw(t, "recv"),
 		Salt:   rapid.Uint32().Draw(t, "salt"),
 	}
+	c.KeyOff = c.AES && rapid.IntRange(0, 3).Draw(t, "keyoff") == 0
 	big := rapid.IntRange(0, 3).Draw(t, "bigcase") == 0 // <=25% of cases may contain >=1MiB messages
 	n := rapid.IntRange(1, 6).Draw(t, "nmsgs")
 	if big {
@@ -511,7 +523,7 @@ func TestC01Compositions(t *testing.T) {
 			for _, aes := range []bool{false, true} {
 				for _, snd := range []int{SPartials, SWriteMessage, STypedBytes} {
 					rcv := (mask + n + snd) % nRecv
-					c := Case{AES: aes, Prefix: (mask + n) % 4, Send: snd, Recv: rcv, Salt: uint32(n*4096 + mask),
+					c := Case{AES: aes, KeyOff: aes && (mask+n)%3 == 0, Prefix: (mask + n) % 4, Send: snd, Recv: rcv, Salt: uint32(n*4096 + mask),
 						Msgs:  []Msg{{Len: n, Cuts: cuts, Flush: uint32(mask*7 + n)}, {Len: (n + 3) % 5, Cuts: nil}},
 						Reads: []int{1 + mask%3}}
 					r := runCase(c)
@@ -527,7 +539,7 @@ func TestC01Compositions(t *testing.T) {
 			}
 		}
 	}
-	ev.Exhaustive(fmt.Sprintf("every composition of messages of length 0..%d into pieces x {Partials,WriteMessage,TypedBytes} x {plain,AES}", maxLen))
+	ev.Exhaustive(fmt.Sprintf("every composition of messages of length 0..%d into pieces x {Partials,WriteMessage,TypedBytes} x {plain, AES, key installed but crypto mode off}", maxLen))
 }
 
 // TestC01Band sweeps every length around the 1 MiB frame limit, both modes,
@@ -544,6 +556,20 @@ func TestC01Band(t *testing.T) {
 						c.Msgs = append(c.Msgs, Msg{Len: 3})
 					}
 					c.Msgs = append(c.Msgs, Msg{Len: MiB + d, Cuts: []int{MiB + d}})
+					if snd == SWriteMessage && d <= 0 {
+						// the band also as a NON-final frame: a partial frame of this size, then a short final one
+						// (one message, whatever the sender has to do to get it onto the wire)
+						pc := c
+						pc.Send = SPartials
+						pc.Msgs = append([]Msg(nil), c.Msgs...)
+						pc.Msgs[len(pc.Msgs)-1] = Msg{Len: MiB + d + 7, Cuts: []int{MiB + d, 7}}
+						pr := runCase(pc)
+						record(pc, pr)
+						if pr.violation != "" && bad < 5 {
+							bad++
+							fail(t, pc, pr)
+						}
+					}
 					r := runCase(c)
 					record(c, r)
 					if d == 0 {
@@ -557,7 +583,7 @@ func TestC01Band(t *testing.T) {
 			}
 		}
 	}
-	ev.Exhaustive(fmt.Sprintf("every message length in [1MiB-%d, 1MiB+%d] x {plain,AES} x 4 senders x {first,later frame}", width, width))
+	ev.Exhaustive(fmt.Sprintf("every message length in [1MiB-%d, 1MiB+%d] x {plain,AES} x 4 senders (plus Partials at or below the limit: a partial frame of that size followed by a 7-byte final frame) x {first,later frame}", width, width))
 }
 
 // TestC01Replay re-executes one saved case (VERIF_REPLAY) and the committed
